@@ -23,6 +23,7 @@ INVARIANT ClosedForm
 INVARIANT Bounded
 INVARIANT PtEnds
 INVARIANT RowWidth
+INVARIANT SameAsOps
 """
 TRACE_CFG = """SPECIFICATION Spec
 INVARIANT EmitBad
@@ -143,6 +144,8 @@ def run(ctx):
                     constants=dict(consts, Dev='"%s"' % dev))
         if r.ok:
             raise core.MachineryError("NetShape.tla: deviation %s satisfies every invariant" % dev)
+    # unbounded: the incremental rule preserves the closed form for EVERY dkmax, N and step (TLA+ proof system)
+    core.tlaps(ctx, "NetShapeProof", ("IF cur <= K THEN cur", "IF cur < K THEN cur"))
     tmp = tempfile.mkdtemp(prefix="vnet_")
     try:
         sources = record(ctx, tmp)
